@@ -53,11 +53,12 @@ Definition sspec (cfg : config) : spec_kind sanswer sresult :=
   {| p_expected := s_expected; p_ttl := s_ttl cfg; p_refused := s_refused; p_eqb := sresult_eqb |}.
 
 (* ---------- which cluster a request is addressed to, and whether it can be asked ---------- *)
-(* Some c: the host names cluster c and c has an endpoint that is healthy and not disabled *)
+(* Some c: the host names cluster c NOW (after all moves of server names, deletions and re-creations so
+   far) and c has an endpoint that is healthy and not disabled *)
 Definition can_ask (cfg : config) (e : epstate) (ho : option host) : option cluster :=
   match ho with
   | None => None
-  | Some h => match cluster_of cfg h with
+  | Some h => match cluster_of e h with
               | None => None
               | Some c => if existsb (fun x => (fst (snd x) && negb (snd (snd x)))%bool) (e_list e c) then Some c else None
               end
@@ -145,9 +146,10 @@ Definition check_step (cfg : config) (torc : cluster -> nat -> tanswer) (sorc : 
   | OAuthz ho a now, OutS r calls =>
       let (s', cl) := check_req (sspec cfg) sorc (can_ask cfg (c_eps s) ho) (c_s s) (sar_key a) now r calls in
       ({| c_eps := c_eps s; c_t := c_t s; c_s := s' |}, cl)
-  | OHealthy _ _, OutNone | ODisabled _ _, OutNone | OAddEp _ _, OutNone | ORemoveEp _ _, OutNone =>
+  | OHealthy _ _, OutNone | ODisabled _ _, OutNone | OAddEp _ _, OutNone | ORemoveEp _ _, OutNone
+  | OName _ _, OutNone | OUnname _ _, OutNone | ORecreate _, OutNone =>
       ({| c_eps := ep_apply o (c_eps s); c_t := c_t s; c_s := c_s s |}, all_ok)
-  | ORestart c, OutNone =>
+  | ORestart c, OutNone | ODelete c, OutNone =>     (* the incarnation of c ends: its earlier answers are no source any more *)
       ({| c_eps := ep_apply o (c_eps s); c_t := restart_k c (c_t s); c_s := restart_k c (c_s s) |}, all_ok)
   | OEvictT _ _, OutNone | OEvictS _ _, OutNone => (s, all_ok)
   | _, _ => (s, all_bad)
